@@ -61,6 +61,15 @@ def generate(seed, n, max_nodes=18, kinds=None, corpus=(), unique_fns=False):
     for _ in range(n):
         case = gen_graph(rng, max_nodes=max_nodes, kinds=kinds, unique_fns=unique_fns)
         steps = gen_steps(rng, case)
+        if rng.random() < 0.1:
+            # an input whose name is `self` (or another name the calling convention might capture); calls bind inputs by keyword
+            new = rng.choice(['self', 'self', 'args', 'kwargs', 'cls'])
+            for nd in case['nodes']:
+                if nd['edge'] is None and nd['name'] == 'x0':
+                    nd['name'] = new
+            for st in steps:
+                if 'env' in st and 'x0' in st['env']:
+                    st['env'] = {(new if k == 'x0' else k): v for k, v in st['env'].items()}
         cases.append((case, steps))
     return cases
 
